@@ -81,7 +81,7 @@ var queueTable = []queueSpec{
 	{"srvstream.done", "goat.handler.processStreamingRpc", "chan struct{}", 0,
 		[]string{"goat.handler.cancelAndWaitForStreams"}, []string{"goat.handler.unregisterStream"}, nil, true, "completion signal"},
 	{"proxy.commands", "goat.NewProxy", "chan goat.command", 0,
-		[]string{"goat.Proxy.serveClients"}, []string{"goat.proxyClient.readLoop", "goat.proxyClient.writeLoop", "goat.proxyClient.connect"}, nil, true, "single forwarding loop"},
+		[]string{"goat.Proxy.serveClients"}, []string{"goat.proxyClient.readLoop", "goat.proxyClient.reportError"}, nil, true, "single forwarding loop"},
 	{"proxy.fromServer.attached", "goat.Proxy.AddClient", "chan *pb.Rpc", 0,
 		[]string{"goat.proxyClient.writeLoop"}, []string{"goat.Proxy.forwardRpc"}, nil, true, "per-destination buffer"},
 	{"proxy.fromServer.dialled", "goat.Proxy.addOutgoingConnectionLocked", "chan *pb.Rpc", 0,
